@@ -61,6 +61,7 @@ const ABC: [&str; 3] = ["a", "b", "c"];
 #[test] fn nb_peg_repnoprogress() { sweep("nb_peg_repnoprogress", &ABC, 7, |s| cmp::<GRepNoProgress<'_>, XRepNoProgress>(s)); }
 #[test] fn nb_peg_repnullable() { sweep("nb_peg_repnullable", &ABC, 7, |s| cmp::<GRepNullable<'_>, XRepNullable>(s)); }
 #[test] fn nb_peg_skippush() { sweep("nb_peg_skippush", &ABC, 7, |s| cmp::<GSkipPush<'_>, XSkipPush>(s)); }
+#[test] fn nb_peg_repasskip() { sweep("nb_peg_repasskip", &AB_, 8, |s| cmp::<GRepAsSkip, XRepAsSkip>(s)); }
 #[test] fn nb_peg_nest() { sweep("nb_peg_nest", &AB_, 8, |s| cmp::<GNest, XNest>(s)); }
 
 // ---- C17: repetition iterators yield the iterations in input order ------------------------------------------------
@@ -142,10 +143,42 @@ fn nb_determinism() {
         let r = det_check::<GSeq3>(&s, &mut cases)
             .and_then(|_| det_check::<GRepCh>(&s, &mut cases))
             .and_then(|_| det_check::<GPushPop<'_>>(&s, &mut cases))
-            .and_then(|_| det_check::<GNest>(&s, &mut cases));
+            .and_then(|_| det_check::<GNest>(&s, &mut cases))
+            .and_then(|_| det_check::<GChoiceLit>(&s.replace(' ', "c"), &mut cases));
         if let Err(e) = r { println!("NB-RESULT name=nb_determinism status=fail cases={} key={}", cases, e); return; }
     }
-    println!("NB-RESULT name=nb_determinism status=ok cases={} key=- detail=4 grammars x all strings<=5 chars over {{a,b,space}} x all sub-ranges: repeated parse, clone, ==, hash, Debug", cases);
+    println!("NB-RESULT name=nb_determinism status=ok cases={} key=- detail=5 grammars (one of choices over string literals) x all strings<=5 chars over {{a,b,space|c}} x all sub-ranges: repeated parse, clone, ==, hash, Debug", cases);
+}
+
+// ---- C17: the built-in choice rules report the alternative pest's definition gives ------------------------------------------------
+#[test]
+fn nb_builtin_alternatives() {
+    let mut cases = 0u64;
+    fn p<'i, G: TypedNode<'i, Rule>>(s: &'i str) -> Option<G> {
+        let input = Position::from_start(s); let mut st = Stack::new(); let mut tr = Tracker::<Rule>::new(input);
+        G::try_parse_partial_with(input, &mut st, &mut tr).map(|x| x.1)
+    }
+    for c in (0u8..128).map(|b| b as char).chain(['é', 'Σ', '٣']) {
+        cases += 1;
+        let s = c.to_string();
+        // pest: ASCII_HEX_DIGIT = '0'..'9' | 'a'..'f' | 'A'..'F';  ASCII_ALPHA = 'a'..'z' | 'A'..'Z';  ASCII_ALPHANUMERIC = ASCII_ALPHA | ASCII_DIGIT
+        let want_hex = if c.is_ascii_digit() { Some(0) } else if ('a'..='f').contains(&c) { Some(1) } else if ('A'..='F').contains(&c) { Some(2) } else { None };
+        let got_hex = p::<ASCII_HEX_DIGIT>(&s).map(|n| if n._0().is_some() { 0 } else if n._1().is_some() { 1 } else { 2 });
+        let want_al = if c.is_ascii_lowercase() { Some(0) } else if c.is_ascii_uppercase() { Some(1) } else { None };
+        let got_al = p::<ASCII_ALPHA>(&s).map(|n| if n._0().is_some() { 0 } else { 1 });
+        let want_an = if c.is_ascii_alphabetic() { Some(0) } else if c.is_ascii_digit() { Some(1) } else { None };
+        let got_an = p::<ASCII_ALPHANUMERIC>(&s).map(|n| if n._0().is_some() { 0 } else { 1 });
+        for (name, w, g) in [("ASCII_HEX_DIGIT", want_hex, got_hex), ("ASCII_ALPHA", want_al, got_al), ("ASCII_ALPHANUMERIC", want_an, got_an)] {
+            if w != g { println!("NB-RESULT name=nb_builtin_alternatives status=fail cases={} key={},char={:?} detail=alternative reported {:?}, the definition in pest gives {:?}", cases, name, c, g, w); return; }
+        }
+        let digit = |lo: char, hi: char| if lo <= c && c <= hi { Some(c) } else { None };
+        if p::<ASCII_DIGIT>(&s).map(|n| n.content) != digit('0', '9') || p::<ASCII_NONZERO_DIGIT>(&s).map(|n| n.content) != digit('1', '9')
+            || p::<ASCII_BIN_DIGIT>(&s).map(|n| n.content) != digit('0', '1') || p::<ASCII_OCT_DIGIT>(&s).map(|n| n.content) != digit('0', '7')
+            || p::<ASCII_ALPHA_LOWER>(&s).map(|n| n.content) != digit('a', 'z') || p::<ASCII_ALPHA_UPPER>(&s).map(|n| n.content) != digit('A', 'Z') {
+            println!("NB-RESULT name=nb_builtin_alternatives status=fail cases={} key=ascii_range,char={:?} detail=a built-in ASCII range rule accepts / reports something else than its pest definition", cases, c); return;
+        }
+    }
+    println!("NB-RESULT name=nb_builtin_alternatives status=ok cases={} key=- detail=built-in ASCII rules on every ASCII character + 3 others: accepted set, reported character, reported alternative of ASCII_HEX_DIGIT / ASCII_ALPHA / ASCII_ALPHANUMERIC as in the definitions of pest", cases);
 }
 
 // ---- C17: leaf nodes expose the text they consumed ------------------------------------------------------------------
